@@ -119,6 +119,9 @@ func runSim(w *Workload, prep [][]*Prepared, warm []*Prepared, cfg RunCfg, keepE
 	sim := simrt.NewSim(cfg.Seed, cfg.Policy)
 	sim.KeepEvents = keepEvents
 	sim.InBuild = inBuild
+	// instrumented code that starts goroutines of its own: verify at every yield
+	// that the caller really is the task holding the baton
+	sim.SetCheckGoid(rewriteGoStmts > 0)
 	installPermHook(cfg.PermSeed, 0)
 	for t := range w.Tasks {
 		t := t
